@@ -118,6 +118,39 @@ func c03Apply(f *refage.File, owner []int, e c03Edit, seed uint64) (hdr []byte, 
 			touch(i)
 		}
 		return out, touched, false
+	case "respell":
+		// one body line of stanza j written in another alphabet for the same bytes: URL-safe
+		// base64 (K even) or with '=' padding added (K odd); the parsed header would be identical
+		var out []byte
+		out = append(out, refage.Intro...)
+		did := false
+		for i := range h.Stanzas {
+			m := h.Stanzas[i].Marshal()
+			if i == j {
+				nl := bytes.IndexByte(m, '\n')
+				body := append([]byte{}, m[nl+1:]...)
+				if e.K%2 == 0 {
+					if bytes.ContainsAny(body, "+/") {
+						body = bytes.ReplaceAll(bytes.ReplaceAll(body, []byte("+"), []byte("-")), []byte("/"), []byte("_"))
+						did = true
+					}
+				} else if lb := len(h.Stanzas[i].Body) % 3; lb != 0 && len(body) > 1 {
+					body = append(append([]byte{}, body[:len(body)-1]...), bytes.Repeat([]byte("="), 3-lb)...)
+					body = append(body, '\n')
+					did = true
+				}
+				m = append(append([]byte{}, m[:nl+1]...), body...)
+			}
+			out = append(out, m...)
+		}
+		out = append(out, []byte("--- "+refage.B64(h.MAC)+"\n")...)
+		if !did {
+			return f.Header.Marshal(), touched, true
+		}
+		for i := range owner {
+			touch(i)
+		}
+		return out, touched, false
 	case "raw-flip", "raw-insert", "raw-delete":
 		raw := f.Header.Marshal()
 		off := e.Off % len(raw)
@@ -414,7 +447,7 @@ func c03Gen(t *rapid.T) c03Case {
 	if rapid.Bool().Draw(t, "moreIdentities") {
 		c.ForeignBefore, c.ForeignAfter = rapid.IntRange(0, 2).Draw(t, "fb"), rapid.IntRange(0, 3).Draw(t, "fa")
 	}
-	kinds := []string{"type", "type-swap", "arg-char", "arg-add", "arg-del", "body-flip", "body-len", "body-swap", "body-strip", "body-pad", "delete-all", "insert-grease", "insert-attacker", "delete", "dup", "permute", "mac-only", "raw-flip", "raw-insert", "raw-delete", "rewrap", "rewrap", "none"}
+	kinds := []string{"type", "type-swap", "arg-char", "arg-add", "arg-del", "body-flip", "body-len", "body-swap", "body-strip", "body-pad", "delete-all", "insert-grease", "insert-attacker", "delete", "dup", "permute", "mac-only", "raw-flip", "raw-insert", "raw-delete", "rewrap", "rewrap", "respell", "respell", "none"}
 	e := c03Edit{Kind: rapid.SampledFrom(kinds).Draw(t, "edit"), J: rapid.IntRange(0, 11).Draw(t, "j"), K: rapid.IntRange(0, 11).Draw(t, "k"), N: rapid.IntRange(0, 300).Draw(t, "n")}
 	e.MAC = rapid.SampledFrom([]string{"keep", "keep", "random", "wrongkey", "truekey", "emptykey", "zerokey"}).Draw(t, "mac")
 	switch e.Kind {
@@ -430,7 +463,7 @@ func c03Gen(t *rapid.T) c03Case {
 			n += len(refStanza(p, r, c03FileKey, uint64(i)))
 		}
 		e.Perm = rapid.Permutation(seq(n)).Draw(t, "perm")
-	case "rewrap":
+	case "rewrap", "respell":
 		e.MAC = "keep"
 	case "raw-flip", "raw-insert", "raw-delete":
 		e.MAC = "keep"
@@ -538,6 +571,43 @@ func TestC03(t *testing.T) {
 		})
 		s.St.Exhaust(fmt.Sprintf("all %d! orders of a %d-stanza header, with the original MAC and re-MACed under the true key", k, k), int64(2*n))
 	}, check)
+	// every stanza's body re-spelled (URL-safe alphabet, padding added), and white space put in front of the file, through the library and the command
+	pbt.Each(s, "edits-exhaustive", func(yield func(c03Case)) {
+		n := 0
+		for _, recs := range mixes {
+			for seed := uint64(5); seed < 9; seed++ {
+				for j := 0; j < 3; j++ {
+					for k := 0; k < 2; k++ {
+						if s.Mine(n) {
+							yield(c03Case{Recs: recs, Seed: seed, PlainLen: 10, Edit: c03Edit{Kind: "respell", J: j, K: k, MAC: "keep"}})
+						}
+						n++
+					}
+				}
+			}
+		}
+		s.St.Exhaust("every stanza body of the recipient mixes (4 files each) re-spelled in URL-safe base64 or with padding", int64(n))
+	}, check)
+	pbt.Each(s, "edits-cli", func(yield func(c03Case)) {
+		n := 0
+		for _, recs := range mixes[:3] {
+			for _, b := range []byte{' ', '\n', '\t', '\r'} {
+				for _, off := range []int{0, 1, 21, 22} {
+					if s.Mine(n) {
+						yield(c03Case{Recs: recs, Seed: 5, PlainLen: 10, Edit: c03Edit{Kind: "raw-insert", Off: off, Byte: b, MAC: "keep"}})
+					}
+					n++
+				}
+			}
+			for j := 0; j < 2; j++ {
+				if s.Mine(n) {
+					yield(c03Case{Recs: recs, Seed: 6, PlainLen: 10, Edit: c03Edit{Kind: "respell", J: j, K: 0, MAC: "keep"}})
+				}
+				n++
+			}
+		}
+		s.St.Exhaust("through age -d: white space inserted at the very start, after the first byte and around the end of the first line; body lines re-spelled", int64(n))
+	}, func(c c03Case) error { return c03CheckCLI(c, s.St) })
 	// all stanzas removed, the MAC left, replaced, or made under a key anybody can guess
 	pbt.Each(s, "edits-exhaustive", func(yield func(c03Case)) {
 		n := 0
